@@ -18,7 +18,15 @@ CLAIMED = {
     ),
 }
 
-NOT_YET = 'check not built yet in this session (planned in DESIGN.md §6); not claimed until its obligations are discharged'
+CLAIMED['C06'] = dict(
+    category='proof',
+    text='Contracts on the real Connection._reader_async / reader_async, Protocol.read_message and Message.unpack with a ghost byte stream and consumed-position: for EVERY way recv splits the stream (the segmentation is the universally quantified return value of the recv callee; loop invariant + variant) the reader returns exactly the next length-delimited message and consumes exactly its bytes; marker fault -> 1/1, length below 19 / above the negotiated maximum / outside the type bounds -> 1/2, unknown type -> 1/3, and the decoder is never entered after a header fault. All obligations discharged by z3. Bounded complement: the real reader over a socketpair under enumerated and sampled segmentations against an RFC framing spec function.',
+    note='Assumes the kernel delivers the stream faithfully (recv callee contract) and no interference at await. The generator twins _reader/reader (not called from src/) are not under contract. The copy of negotiated.msg_size into connection.msg_size in Peer._establish is not covered here.',
+    ref='DESIGN.md §6 C06',
+    technique=PYVC + '; loop invariant over a nondeterministic recv callee with ghost stream state; socketpair replay',
+)
+
+NOT_YET = """'check not built yet in this session (planned in DESIGN.md §6); not claimed until its obligations are discharged'
 NA = {}
 
 props = [json.loads(l)['id'] for l in open(os.path.join(ROOT, 'properties.jsonl'))]
